@@ -101,11 +101,17 @@ def run_cases(job):
 def weight_cases():
     from nanite.rate.rater import IndentationRater
     out = []
-    for n in range(1, 7):
+    for n, dt in [(n, dt) for n in range(1, 7)
+                  for dt in ("float", "int64", "int16")]:
+        # (responses arrive as floats from a text file, as integers from a
+        # rating container or from a caller's own array)
+        if dt != "float" and n > 5:
+            continue
         for y in itertools.product([0, 3, 10], repeat=n):
-            rec = {"y": list(y), "raised": "", "w": [[0, 1]] * n}
+            rec = {"y": list(y), "raised": "", "w": [[0, 1]] * n,
+                   "dtype": dt}
             try:
-                yy = np.array(y, dtype=float)
+                yy = list(y) if dt == "list" else np.array(y, dtype=dt)
                 w = IndentationRater.compute_sample_weight(
                     np.zeros((n, 2)), yy)
                 rec["w"] = [out_cell(v)[1:] if out_cell(v)[0] == "num"
